@@ -36,6 +36,7 @@ SA == AnonStruct(Named(<<U8, I64>>))      SB == AnonStruct(Named(<<I32, U8>>))
 SC == AnonStruct(Named(<<Str, Bool>>))    SD == AnonStruct(Named(<<U8, U8, U8>>))
 SE == AnonStruct(Named(<<F64, F32>>))     SN == AnonStruct(Named(<<SA, U8>>))
 SF == AnonStruct(Named(<<I64, U8>>))
+SO == AnonStruct(Named(<<U8, Opt(U16)>>))
 EA == EnumOf(81, <<Void, U8>>)            EB == EnumOf(82, <<U8, I64>>)
 EC == EnumOf(83, <<SF, Arr(12, U8)>>)     ED == EnumOf(84, <<Void, Void, Void>>)
 RU == <<I8, I16, I32, I64, U8, U16, U32, U64, ISize, USize, F32, F64, Bool, Char, Str,
@@ -43,6 +44,10 @@ RU == <<I8, I16, I32, I64, U8, U16, U32, U64, ISize, USize, F32, F64, Bool, Char
         Arr(3, U16), Arr(2, SB), Arr(0, I32), Arr(4, Opt(I32)),
         SA, SB, SC, SD, SE, SN, SF,
         EA, EB, EC, ED,
+        \* optionals nested in optionals (directly, through an array, through a struct member):
+        \* the outer one's record must not be confused with the inner one's
+        Opt(Opt(U32)), Opt(Arr(2, Opt(I16))), Opt(SO), SO, Opt(U32), Opt(I16), Opt(U16),
+        EU(Str, Opt(U8)), EnumOf(85, <<Opt(I32), Opt(F64)>>),
         Opt(U8), Opt(I64), Opt(Ptr(FALSE, I32)), Opt(SF), Opt(Str),
         EU(Str, I32), EU(SD, I64),
         Distinct(901, U16), Distinct(902, SB), Distinct(903, Opt(I32))>>
